@@ -26,6 +26,10 @@ import (
 // cooperative scheduler substitutes its own.
 var Spawn = func(name string, f func()) { go f() }
 
+// Point is a scheduling point a schedule-exploring check may install: it is called before a client message reaches the
+// coordinator.
+var Point = func(desc string) {}
+
 // Event is one message crossing the fake connection.
 type Event struct {
 	G       int64  // global sequence shared with memdb's journal
@@ -157,6 +161,7 @@ func (s *Session) WritePkg(pkg interface{}, timeout time.Duration) (int, int, er
 	if s.IsClosed() {
 		return 0, 0, fmt.Errorf("faketc: session closed")
 	}
+	Point(fmt.Sprintf("send %T", msg.Body))
 	return s.tc.receive(s, msg)
 }
 
@@ -658,5 +663,14 @@ func (tc *TC) DriveCommit(xid string) []int {
 		b.Status = r.BranchStatus
 		tc.mu.Unlock()
 	}
+	if SettleAfterCommit {
+		// an AT branch commit is only queued: the client deletes the undo log asynchronously. Single-threaded checks wait here
+		// until that work is over, so that no background statement lands in the middle of the next case
+		quiet.Spin(nil, 2)
+	}
 	return out
 }
+
+// SettleAfterCommit makes DriveCommit wait for the process to go quiet (the asynchronous undo-log deletion) before returning.
+// Checks that run several client threads at once switch it off.
+var SettleAfterCommit = true
